@@ -144,7 +144,11 @@ func ruleC16a(c *Ctx) []*report.Result {
 			continue
 		}
 		pos := c.P.Pos(fn.Pos())
-		calls, straight := callsInOrder(fn)
+		// unexported helpers of the printer are read in place
+		fl := flatten(fn, func(g *ssa.Function) bool {
+			return c.P.InModule(g) && recvNamed(g) == tPP && g.Object() != nil && !g.Object().Exported() && !strings.HasPrefix(g.Name(), "doPrint") && g.Name() != "free"
+		})
+		calls, straight := fl.calls, fl.straight
 		if !straight {
 			r.Undecide(construct + " is not straight-line code: the protocol rule does not apply to this shape")
 			continue
@@ -160,7 +164,7 @@ func ruleC16a(c *Ctx) []*report.Result {
 				np = ci.(*ssa.Call)
 			case strings.HasPrefix(n, "(*internal/rfmt.pp).doPrint"):
 				seq = append(seq, ci.Common().StaticCallee().Name())
-				a := ci.Common().Args
+				a := fl.args(ci)
 				okRecv = okRecv && a[0] == np
 				// remaining args = the entry point's own parameters, minus the writer
 				params := fn.Params
@@ -180,7 +184,7 @@ func ruleC16a(c *Ctx) []*report.Result {
 				seq = append(seq, "take")
 			case n == "(*internal/rfmt.pp).free":
 				seq = append(seq, "free")
-				okRecv = okRecv && ci.Common().Args[0] == np
+				okRecv = okRecv && fl.args(ci)[0] == np
 			case strings.HasPrefix(n, "invoke "):
 				seq = append(seq, "write")
 			default:
@@ -341,11 +345,16 @@ func ruleC16c(c *Ctx) []*report.Result {
 			continue
 		}
 		pos := c.P.Pos(fn.Pos())
-		var calls []ssa.CallInstruction
-		for _, b := range linearOrder(fn) {
-			for _, ins := range b.Instrs {
-				if ci, ok := ins.(ssa.CallInstruction); ok {
-					calls = append(calls, ci)
+		// helpers of the builder are read in place
+		fl := flatten(fn, func(g *ssa.Function) bool { return c.P.InModule(g) && recvNamed(g) == tBuilder })
+		calls := fl.calls
+		if !fl.straight {
+			calls = nil
+			for _, b := range linearOrder(fn) {
+				for _, ins := range b.Instrs {
+					if ci, ok := ins.(ssa.CallInstruction); ok {
+						calls = append(calls, ci)
+					}
 				}
 			}
 		}
@@ -368,13 +377,13 @@ func ruleC16c(c *Ctx) []*report.Result {
 			r.Fail(construct+" / shape", pos, fmt.Sprintf("want SetMode(PreRedactable) followed by one call of rfmt.%s and no other route into the buffer (found SetMode=%v, %s=%v, %d other writing calls): text written by another route does not go through the printer's classification and escaping", target, sm != nil, target, fp != nil, extraWrites), nil, "")
 			continue
 		}
-		if !instrBefore(sm, fp) {
+		if !(fl.straight && fl.before(sm, fp)) && !(sm.Parent() == fp.Parent() && instrBefore(sm, fp)) {
 			r.Fail(construct+" / raw mode first", pos, "SetMode(PreRedactable) must precede (dominate) the call of rfmt."+target, nil, "")
 			continue
 		}
 		okMode := false
 		if strings.HasSuffix(calleeName(sm), ".SetMode") {
-			if cst, ok := sm.Common().Args[1].(*ssa.Const); ok && cst.Int64() == 2 {
+			if k, ok := intConst(fl.res(sm.Common().Args[1])); ok && k == 2 {
 				okMode = true
 			}
 		}
@@ -382,8 +391,14 @@ func ruleC16c(c *Ctx) []*report.Result {
 		okT := calleeName(fp) == "internal/rfmt."+target
 		r.Check(okT, construct+" / route", pos, "the second call must be rfmt."+target)
 		if okT {
-			a := fp.Common().Args
-			sameBuf := bufferOf(stripIface(a[0])) == bufferOf(sm.Common().Args[0]) && bufferOf(sm.Common().Args[0]) != nil
+			a := fl.args(fp)
+			bufBase := func(v ssa.Value) ssa.Value {
+				if x := bufferOf(fl.deep(v)); x != nil {
+					return fl.res(x)
+				}
+				return nil
+			}
+			sameBuf := bufBase(a[0]) == bufBase(sm.Common().Args[0]) && bufBase(sm.Common().Args[0]) != nil
 			r.Check(sameBuf, construct+" / writer is the builder's buffer", pos, "rfmt."+target+" must write into the buffer whose mode was set")
 			okArgs := len(a)-1 == len(fn.Params)-1
 			if okArgs {
